@@ -434,6 +434,20 @@ def g_segment_pairs(ctx, rng, i):
     if i % 5 == 0:
         _try(s1.intersect, g.Line(g.Point(LAT2[c]), g.Point(LAT2[d])))
         _try(s2.intersect, s1)
+    if i % 6 == 1:
+        # the same configuration magnified to pixel coordinates in 16 / 8 bit integer representation (coordinates fit, their products do not)
+        for dt, f_ in ((np.int16, 150), (np.int16, 40), (np.uint8, 12), (np.int32, 9000)):
+            pts = [np.array([int(v[0]) * f_, int(v[1]) * f_, 1]) for v in (LAT2[a], LAT2[b], LAT2[c], LAT2[d])]
+            lo = min(int(p[k_]) for p in pts for k_ in range(2))
+            if dt is np.uint8:
+                pts = [p + np.array([-lo, -lo, 0]) for p in pts]
+            if max(abs(int(x)) for p in pts for x in p) > np.iinfo(dt).max or any(np.array_equal(pts[j], pts[j + 1]) for j in (0, 2)):
+                continue
+            n1 = _try(g.Segment, g.Point(pts[0].astype(dt)), g.Point(pts[1].astype(dt)))
+            n2 = _try(g.Segment, g.Point(pts[2].astype(dt)), g.Point(pts[3].astype(dt)))
+            if n1 is not None and n2 is not None:
+                _try(n1.intersect, n2)
+                _try(n2.intersect, g.Line(g.Point(pts[0].astype(dt)), g.Point(pts[1].astype(dt))))
     if i % 7 == 0:
         # the other segment as a member of a collection (a collection object, an edge of a polygon): a single segment against a
         # collection, a collection against a single segment, two collections
